@@ -3,6 +3,8 @@ from specs import chunker
 
 LEVEL = 'proof'
 UNITS = [chunker.next_cut_unit('C10'), chunker.next_cut_frame('C10'), chunker.call_unit('C10'), chunker.c10_lemmas('C10')]
+from specs import families as _families
+UNITS = _families.with_families('C10', UNITS)
 BOUNDED = [
     {'name': 'C10.so_conformance', 'script': 'bounded/c10_conformance.py', 'timeout': 900,
      'bound': 'shipped .so through the real adapter: all 1<=min<=max<=9 (thorough: 12) with an aligned length in range; '
